@@ -371,7 +371,23 @@ def run(item):
         acc = sorted(accepted.items())
         if not any(a >= 2 for a, _ in acc):
             return tot          # only single-stripe (serial) configurations are accepted: nothing runs concurrently
+        if n1d < 3:
+            # a partition axis shorter than the 3-cell TSC cloud: any accepted multi-stripe configuration is a conflict by
+            # construction (every particle touches every row); report it without a row summary of the unsupported tiny grid
+            def tiny():
+                c = ctx()
+                c.extra['case'] = dict(kind='conflict', n1d=n1d, coord=coord)
+                c.extra['sample'] = c.extra['case']
+                for npart, nth in acc:
+                    if npart >= 2:
+                        c.events.append(dict(kind='race', what=f'n1d={n1d}, npartition={npart} is accepted (nthread={nth}) on an axis shorter than a TSC cloud',
+                                             key='race:other', model=dict(x1='1/8', x2='7/8', o=0, s1=0, s2=npart - (npart % 2 == 0) - 1 if npart > 2 else 0, row=0, nthread=nth),
+                                             info=dict(case=dict(kind='conflict', n1d=n1d, npartition=npart, coord=coord, nthread=nth))))
+            r, res = common.run_paths(tiny)
+            add(r)
+            return tot
         summary, st = rows_summary(n1d, coord)
+        st['events'] = [e for e in st['events'] if e['kind'] != 'oob']      # memory safety of the painter is C06/C11's
         add(st)
         r, res = common.run_paths(lambda: body_conflicts(n1d, coord, acc, summary=summary))
         add(r)
@@ -461,7 +477,7 @@ m = {m!r}
 case = {i!r}
 n1d, npart, coord, nth = case['n1d'], case['npartition'], case['coord'], max(2, int(case.get('nthread', 2)))
 x1, x2, o = float(F(m['x1'])), float(F(m['x2'])), float(F(m['o']))
-shape = [3, 3, 3]; shape[coord] = n1d
+shape = [2 * n1d + 6, 2 * n1d + 9, 2 * n1d + 12]; shape[coord] = n1d      # the anisotropic grid of the configuration step
 bad = []
 # (a) the configuration is accepted by the real tsc_parallel
 import numba
